@@ -143,6 +143,8 @@ def reuse_histories(draw):
     return case
 
 
+from props.coap_layers import C11_COAP_LAYERS as _COAP11  # noqa: E402
+
 SPEC = Property(
     P, "fault_enumeration",
     rule=("address lists of 1..3 hosts (paired accessory / another accessory / refusing / black hole) x a per-attempt outcome script over "
@@ -159,6 +161,7 @@ SPEC = Property(
         Layer("two-pairings", run_two_pairings, enumerate=enum_two_pairings, exhaustive=True,
               space="two pairings in one process: 9 disturbances of A's connection while B has a request outstanding; both creation orders", min_nontrivial=10),
         Layer("reuse-after-close", run_case, strategy=reuse_histories, n={"quick": 4000, "thorough": 60000}, min_nontrivial=200),
+        *_COAP11,
     ],
     assumptions=["'holds a connection' = the controller has not called close()/abort() on the transport and has not been told it is lost",
                  "observations are taken when the event loop is idle, and at the instant each new connection is opened"],
